@@ -52,9 +52,9 @@ def to_varr(a):
 def bounds(tier):
     if tier == "quick":
         return dict(single="rank<=3, <=3 symbols, every output order", pair="operand rank<=2 with <=4 symbols plus rank<=3 with <=3 symbols, every output order (rank<=3)",
-                    sizes="every assignment from {1,2,3} with product<=48 (quick: {1,2} and all-3/alternating)", tensordot="ranks<=2, every axes int and tuple pair")
+                    sizes="every assignment from {1,2,3} with product<=48 (quick: {1,2} and all-3/alternating)", tensordot="ranks<=2, every axes int and tuple pair; each tuple written 5 ways (non-negative / negative axes on a, on b, on both, alternating; solver-chosen)")
     return dict(single="rank<=4, <=4 symbols", pair="operand rank<=3, <=4 symbols, every output order", sizes="every assignment from {1,2,3}, product of all label sizes <= 81",
-                tensordot="ranks<=3, every axes int and tuple pair, dims {1,2,3}")
+                tensordot="ranks<=3, every axes int and tuple pair (5 non-negative/negative spellings each), dims {1,2,3}")
 
 
 def size_assignments(labels, tier):
@@ -192,28 +192,33 @@ def run_item(item, rec):
             for size in size_assignments(labels, tier):
                 arrays = symarr.sym_arrays(inputs, size)
                 ref = symarr.dense_einsum(inputs, output, size, arrays)
-                ax_arg = axes if isinstance(axes, int) else (tuple(axa), tuple(axb))
                 for bk in ("numpy", "vnp"):
-                    case = dict(kind="tensordot", ra=ra, rb=rb, axes=axes, size=size, backend=bk, inputs=list(inputs), output=output)
+                    case0 = dict(kind="tensordot", ra=ra, rb=rb, axes=axes, size=size, backend=bk, inputs=list(inputs), output=output)
 
-                    def harness(ctx, case=case, bk=bk):
+                    def harness(ctx, case0=case0, bk=bk):
                         arrs = [to_varr(a) for a in arrays] if bk == "vnp" else arrays
+                        # how each axis is WRITTEN is solver-chosen: numpy.tensordot accepts negative axes
+                        rep = symx.choose("axis_representation", 5) if (k and not isinstance(axes, int)) else 0
+                        aa = [x - ra if (rep in (1, 3) or (rep == 4 and i % 2 == 0)) else x for i, x in enumerate(axa)]
+                        bb = [x - rb if (rep in (2, 3) or (rep == 4 and i % 2 == 1)) else x for i, x in enumerate(axb)]
+                        ax_arg = axes if isinstance(axes, int) else (tuple(aa), tuple(bb))
+                        case = dict(case0, axes_arg=(ax_arg if isinstance(ax_arg, int) else [list(aa), list(bb)]))
                         try:
                             out = tensordot(arrs[0], arrs[1], ax_arg)
                         except Exception as e:  # noqa
                             rec.concrete_violation("tensordot raised", dict(case=case, error=repr(e), arrays=None,
-                                                                            signature=["C11", "tensordot", ra, rb, str(axes), "raise"]))
+                                                                            signature=["C11", "tensordot", ra, rb, str(ax_arg), "raise"]))
                             return
                         out = np.asarray(symarr.as_obj_array(out))
                         bad = symarr.diff_formula(out, ref)
 
                         def viol(m):
                             return dict(case=case, arrays=[a.tolist() for a in symarr.model_arrays(m, arrays)],
-                                        signature=["C11", "tensordot", ra, rb, str(axes), bk, sorted(size.items())])
+                                        signature=["C11", "tensordot", ra, rb, str(ax_arg), bk, sorted(size.items())])
 
                         rec.refute(ctx, bad, "tensordot==reference", viol)
 
-                    rec.add_explore(symx.explore(harness, max_paths=2))
+                    rec.add_explore(symx.explore(harness, max_paths=12))
             rec.sample(dict(tensordot=dict(rank_a=ra, rank_b=rb, axes=axes), entries="z3 Reals"))
         rec.validated += 1
 
@@ -240,7 +245,7 @@ def replay(v):
             if case["kind"] == "einsum":
                 got = einsum(case["eq"], *arrs)
             else:
-                ax = case["axes"]
+                ax = case.get("axes_arg", case["axes"])
                 ax = ax if isinstance(ax, int) else (tuple(ax[0]), tuple(ax[1]))
                 got = tensordot(arrs[0], arrs[1], ax)
         except Exception as e:  # noqa
